@@ -139,7 +139,10 @@ pub fn matches_wire(a: &StunAttribute, w: &obs::RawAttr) -> bool {
     match a {
         StunAttribute::MessageIntegrity(_)
         | StunAttribute::MessageIntegritySha256(_)
-        | StunAttribute::Fingerprint(_) => verifiable_bytes(a).map(|b| b == w.value).unwrap_or(false),
+        | StunAttribute::Fingerprint(_) => {
+            // (a value longer than the attribute needs is decoded from its first bytes)
+            verifiable_bytes(a).map(|b| !b.is_empty() && w.value.starts_with(&b)).unwrap_or(false)
+        }
         StunAttribute::Software(s) => s.as_str().as_bytes() == &w.value[..],
         StunAttribute::Unknown(u) => u.attribute_data().map(|d| d == &w.value[..]).unwrap_or(true),
         _ => true,
